@@ -1100,6 +1100,16 @@ pub fn drive_c12(t: &Tier, m: &mut Matrix, sink: &mut Sink) {
 // C07 (function-contract part): every edit with operands of every kind
 // ------------------------------------------------------------------------------------------------
 
+/// The size_hint of the iterator fed to extend / collect: exact, lying lower bound, honest but loose.
+pub fn pick_lie(rng: &mut Rng) -> Option<usize> {
+    match rng.below(6) {
+        0 | 1 => Some(rng.below(300)),
+        2 => Some(LOOSE_UPPER + *rng.pick(&[1usize, 7, 64, 200])),
+        3 => Some(LOOSE_BOTH + *rng.pick(&[1usize, 3, 64])),
+        _ => None,
+    }
+}
+
 pub fn drive_c07_cases(t: &Tier, m: &mut Matrix, sink: &mut Sink) {
     let mut rng = Rng::new(t.seed ^ 0xC07);
     let xs = pool(t, &mut rng, t.q(129, 257), t.quick, t.q(1, 6));
@@ -1134,14 +1144,14 @@ pub fn drive_c07_cases(t: &Tier, m: &mut Matrix, sink: &mut Sink) {
             let rb = rng.below(n + 1);
             let i = *rng.pick(&[0, n, n / 2, n.min(8), n.min(64), rb]);
             sink.emit(m.run(&Case::new("insert", x.clone()).y(YSpec::Bits(y.clone())).a(Args { i: Some(i), ..Default::default() }).xk(fit(tot))));
-            let lie = if rng.chance(1, 3) { Some(rng.below(300)) } else { None };
+            let lie = pick_lie(&mut rng);
             sink.emit(m.run(&Case::new("extend", x.clone()).a(Args { bits: Some(y.clone()), lie, ..Default::default() }).xk(fit(tot))));
         }
         // the empty operand
         sink.emit(m.run(&Case::new("append", x.clone()).y(YSpec::Bits(vec![]))));
         sink.emit(m.run(&Case::new("prepend", x.clone()).y(YSpec::Bits(vec![]))));
         sink.emit(m.run(&Case::new("insert", x.clone()).y(YSpec::Bits(vec![])).a(Args { i: Some(n / 2), ..Default::default() })));
-        let lie = if rng.chance(1, 3) { Some(rng.below(300)) } else { None };
+        let lie = pick_lie(&mut rng);
         sink.emit(m.run(&Case::new("collect", vec![]).a(Args { bits: Some(x.clone()), lie, ..Default::default() }).xk(fit(n)).capsens()));
     }
 }
